@@ -200,7 +200,8 @@ func (in *Interp) constVal(c *ssa.Const) V {
 		case b.Info()&types.IsString != 0:
 			return Str{S: constant.StringVal(c.Value)}
 		case b.Info()&types.IsFloat != 0:
-			panic(unsupported("float const"))
+			f, _ := constant.Float64Val(c.Value)
+			return Float{f}
 		}
 	}
 	panic(unsupported("const " + c.String()))
@@ -307,11 +308,15 @@ func (in *Interp) callFn(fn *ssa.Function, args []V, env []V, initCtx bool) V {
 		return r
 	}
 	if fn.Blocks == nil {
+		// A generic instance (Pkg == nil) is created and built inside the Build() of the package that references it; another
+		// worker may be in the middle of that Build: taking the lock waits for it to finish.
+		ssaMu.Lock()
 		if fn.Pkg != nil {
-			ssaMu.Lock()
 			fn.Pkg.Build()
-			ssaMu.Unlock()
+		} else if o := fn.Origin(); o != nil && o.Pkg != nil {
+			o.Pkg.Build()
 		}
+		ssaMu.Unlock()
 		if fn.Blocks == nil {
 			if initCtx {
 				return zeroResult(fn)
@@ -572,6 +577,10 @@ func (in *Interp) exec(fr *frame, ins ssa.Instruction, initCtx bool) {
 		mt := x.Type().Underlying().(*types.Map)
 		fr.regs[fr.fi.idx[x]] = &MapV{KT: mt.Key(), VT: mt.Elem()}
 	case *ssa.MakeSlice:
+		if r, ok := in.absMake(x, in.get(fr, x.Len).(Int), in.get(fr, x.Cap).(Int)); ok {
+			fr.env[x] = r
+			break
+		}
 		n := in.concInt(in.get(fr, x.Len).(Int), 64, "makeslice")
 		c := in.concInt(in.get(fr, x.Cap).(Int), 1<<20, "makeslice-cap")
 		if c < n {
@@ -747,6 +756,9 @@ func (in *Interp) unop(fr *frame, x *ssa.UnOp) V {
 		}
 		return in.mkBool(in.ts.Op("not", 0, b.S))
 	case token.SUB:
+		if f, ok := v.(Float); ok {
+			return Float{-f.C}
+		}
 		i := v.(Int)
 		if i.S == nil {
 			return in.cInt(-i.C, i.W, i.Signed)
@@ -776,6 +788,9 @@ func (in *Interp) unop(fr *frame, x *ssa.UnOp) V {
 }
 
 func (in *Interp) binop(op token.Token, a, b V, t types.Type) V {
+	if isFloatType(t) {
+		return in.floatBinop(op, a, b)
+	}
 	switch x := a.(type) {
 	case Int:
 		y := b.(Int)
@@ -1146,6 +1161,9 @@ func (in *Interp) strBytes(s Str) []V {
 // ---- conversions ----
 
 func (in *Interp) convert(v V, from, to types.Type) V {
+	if r, ok := in.floatConvert(v, from, to); ok {
+		return r
+	}
 	if fw, fs, ok := intInfo(from); ok {
 		if tw, tsg, ok2 := intInfo(to); ok2 {
 			i := v.(Int)
